@@ -77,7 +77,18 @@ def run_case(ctx, payload, labelmsm, seedtag, nattempts, tag):
     params = {"payload": payload.hex(), "labelmsm": labelmsm, "seedtag": seedtag, "n": nattempts, "tag": tag}
     try:
         how = seedtag % 3 if 2 <= len(payload) <= 1023 else 0
-        if how == 0:
+        if how == 0 and seedtag % 11 == 3 and len(payload) >= 2:
+            # a user's subclass that only adapts the constructor (takes a whole frame): its instances are messages too
+            from vf import refcrc as _rc
+
+            class FrameMessage(RTCMMessage):
+                def __init__(self, frame, **kw):
+                    super().__init__(payload=frame[3:-3], **kw)
+
+            m = FrameMessage(_rc.frame(payload) if len(payload) <= 1023 else b"\xd3\x00\x00" + payload + b"\x00\x00\x00",
+                             labelmsm=labelmsm)
+            ctx.hit("user_subclass_instances")
+        elif how == 0:
             if seedtag % 7 == 0:
                 # a station message repeats verbatim for hours: the message under test is the 40th identical construction
                 for _ in range(39):
@@ -111,6 +122,23 @@ def run_case(ctx, payload, labelmsm, seedtag, nattempts, tag):
     except Exception:
         ctx.hit("unparseable_skipped")
         return
+    if seedtag % 5 == 1:
+        # the message under test is a COPY of the constructed one (copy / deepcopy / pickle round trip): where the
+        # library lets messages be copied at all, the copy is a message like any other
+        import copy
+        import pickle
+
+        try:
+            clone = (copy.copy, copy.deepcopy, lambda x: pickle.loads(pickle.dumps(x)))[(seedtag // 5) % 3](m)
+        except Exception:
+            clone = None
+            ctx.hit("copy_not_supported(skipped)")
+        if clone is not None:
+            if snapshot(clone) != snapshot(m):
+                ctx.hit("copy_not_faithful(skipped)")  # (no property speaks about what a copy looks like)
+            else:
+                m = clone
+                ctx.hit("copies_attacked")
     before = snapshot(m)
     existing = list(m.__dict__)
     pub = [k for k in existing if not k.startswith("_")]
@@ -147,7 +175,9 @@ def run_case(ctx, payload, labelmsm, seedtag, nattempts, tag):
                 if kind == "aug":
                     import operator
 
-                    name = rng.choice((name, "payload", "_payload"))
+                    # (the buffer-holding private attribute is whatever this tree calls it: taken from the object)
+                    bufpriv = [k for k in priv if isinstance(m.__dict__.get(k), (bytes, bytearray, memoryview))]
+                    name = rng.choice([name, "payload"] + bufpriv[:1])
                     cur = getattr(m, name)
                     ctx.hit("augmented")
                     # what `msg.name += x` does: in-place add on the current value, then assignment
